@@ -78,7 +78,8 @@ CHECKS["C15"] = dict(
     category="proof",
     text=("ParserState is proved to keep exactly one tree / association / language entry per physical file: _get_realpath "
           "returns os.path.realpath under the cache invariant; insert_file addresses the real path, never parses a known "
-          "file again (ghost call counter), parses a new one exactly once and starts it with an empty association; "
+          "file again (ghost call counter), parses a new one exactly once, records for it the given language (else the one its "
+          "name selects) and starts it with an empty association; "
           "get_tree/get_map look up through the real path; the table invariant (keys canonical, three tables with equal "
           "domains) is preserved. get_setmap (shared with C06) is proved to skip exactly the symbolic links whose target "
           "is a member. Membership of links (CodeBase.__contains__) and FileTree.insert are not under contract yet."),
@@ -105,7 +106,9 @@ CHECKS["C16"] = dict(
     text=("report.find_duplicates is proved (four nested loops, partition-refinement invariants, termination of the "
           "while loop by card(remaining)) to return exactly the content-equality classes of size >= 2 among the "
           "enumerated members that are not symbolic links: every group is a full class, every file with an identical "
-          "twin is listed, no group is listed twice - for every code base and every hash-bucket / set iteration order."),
+          "twin is listed, no group is listed twice - for every code base and every hash-bucket / set iteration order. "
+          "That the enumeration hands over every member (hard-linked names included) is a bounded stand-in on small trees "
+          "built by the check, with the expected members taken from the files it created."),
     design_ref="DESIGN.md section 5 C16, section 9",
     note=COMMON_NOTE + "A5 sha512 digest is a function of content, filecmp.cmp(shallow=False) <=> equal content; A4 static FS, no I/O errors; A10 cardinality lemmas.",
     technique=TECH,
@@ -222,7 +225,8 @@ CHECKS["C02"] = dict(
           "replayed on the real function); (c) an #elif of a chain that already selected a branch is never evaluated. BOUNDED, and "
           "deciding for the rest: literals in every base/suffix, character constants, defined, unknown identifiers, ?: and the "
           "recursive parser are checked against a C reference evaluator (every atom x unary operator, every binary operator on "
-          "boundary operands, every operator pair, ternary nesting, seeded random depth-3 expressions). Six defect classes found "
+          "boundary operands, every operator pair, ternary nesting, seeded random depth-3 expressions; a sample of them also written "
+          "to a file with backslash-newlines inserted anywhere and read back through the real file parser). Six defect classes found "
           "this way were fixed in /repo."),
     design_ref="DESIGN.md section 5 C02, sections 9 and 13",
     note="A9 C reference evaluator and precedence table are trusted specs; A2b Python's & | ^ agree with abstract 64-bit operators on the low 64 bits (bit-level meaning not proved); the unsuffixed-literal OverflowError is pinned by tests/failure (known finding); macro expansion before evaluation belongs to C03.",
@@ -254,7 +258,9 @@ CHECKS["C17"] = dict(
           "statement), together with the directives-only steps of the C cleaner and the one_space_line buffer (shared with "
           "C05). The composition over whole files is a bounded stand-in (all texts of <= 6 / <= 8 characters over 8 letters - "
           "19M texts in thorough - and random token texts vs the reference classifier), and 'conditionals select lines as in C' "
-          "is a bounded stand-in on model code bases with .F90 sources vs the reference preprocessor."),
+          "is a bounded stand-in on model code bases with .F90 sources vs the reference preprocessor; that an included file is handed "
+          "the language recorded for its includer rests on the insert_file contract (shared with C15: a new file records the "
+          "given language, else the one its name selects), re-discharged here."),
     design_ref="DESIGN.md section 5 C17, section 9",
     note=COMMON_NOTE + "A9 reference scanner table trusted; dir_check (sentinel recognition) opaque in the step contracts; fixed-form Fortran unsupported by the code.",
     technique=TECH,
